@@ -4,9 +4,10 @@ import vlib
 
 TARGETS = ["Base/Corr.vo", "C18/Model.vo", "C18/Corr.vo", "C18/TableModel.vo", "C18/TableCorr.vo", "C18/ConfigModel.vo", "C18/ConfigCorr.vo", "C18/ProofsTable.vo", "C18/ProofsConfig.vo", "C18/Spec.vo", "C18/SpecTest.vo", "C18/ProofsBase.vo",
            "C18/ProofsScalar.vo", "C18/ProofsSparse.vo", "C18/ProofsDense.vo", "C18/ProofsSparseMat.vo", "C18/ProofsInst.vo", "C18/ProofsTable2.vo", "C18/ProofsConfig2.vo", "C18/Props.vo",
-           "C18/RecvModel.vo", "C18/RecvCorr.vo", "C18/ProofsRecv.vo", "C18/PropsRecv.vo"]
-PROPS = ["C18/Props.v", "C18/PropsRecv.v"]
-STEMS = ["cases", "tcases", "ccases", "rcases"]
+           "C18/RecvModel.vo", "C18/RecvCorr.vo", "C18/ProofsRecv.vo", "C18/PropsRecv.vo",
+           "C18/ConfigModelV.vo", "C18/ConfigCorrV.vo", "C18/ProofsConfigV.vo", "C18/ProofsConfigV2.vo", "C18/RegistryModel.vo", "C18/RegistryCorr.vo", "C18/ProofsRegistry.vo", "C18/PropsV.vo"]
+PROPS = ["C18/Props.v", "C18/PropsRecv.v", "C18/PropsV.v"]
+STEMS = ["cases", "tcases", "ccases", "rcases", "vcases", "gcases"]
 CORPUS = os.path.join(vlib.ROOT, "corpus/C18/corpus.jsonl")
 # findings retired by fix: commits must be removed from BOTH /verif/known_findings.json and this file (b3C18 did so for the six JSON ones)
 PROPOSED = os.path.join(vlib.ROOT, "corpus/C18/known_findings_proposed.json")
@@ -24,7 +25,18 @@ PARTIAL = ("Theorems are about the hand-written models coq/C18/Model.v (JSON wri
            "proved by induction over the tree for every nesting of mixture / log transform / translation / top-level iid over the 15 "
            "plain families + categorical (binomial excluded: F-CONFIG-BINOMIAL); log/exp/normalisation are abstract (hypotheses "
            "flog(fexp x)=x, norm lw = lw), so the tie compares categorical/binomial/mixture parameters by count in Coq and with a "
-           "tolerance in the oracle; vector/matrix registries other than 'vector:scalar iid' (HMMs, normal, ...) are not modelled. "
+           "tolerance in the oracle. Round 6 (ConfigModelV.v): the vector and matrix registries are modelled for 'vector:scalar id', "
+           "'vector:vector id', 'vector:vector iid', 'vector:mixture distribution', 'matrix:vector id', 'matrix:vector iid', 'matrix:mixture "
+           "distribution' over 'vector:scalar iid' and the scalar trees (stored VectorId.n / VectorIid.n as Go ints, Dim(), the ScalarType() "
+           "calls that index Distributions[0], n % m with its divide-by-zero): import(export d) = d by induction for every nesting the "
+           "constructors can build and, conversely, for whatever the importers build from any binomial-free document; the importers "
+           "establish the id/iid constructor guards for every document (proved), but not the mixtures' (F-CONFIG-MIXTURE-ARITY, refuted) and "
+           "panic on an iid over a zero-dimensional / an id or iid over an empty id distribution (F-CONFIG-IID-PANIC, refuted). The hypothesis "
+           "int(float64(n)) = n restricts iid dimensions to |n| <= 2^53. NOT modelled: the other registered names (HMM / constrained / "
+           "hierarchical / shape HMM, vector normal / skew normal / t, logistic regression, inverse Wishart, normal inverse Wishart: named "
+           "parameter maps, matrix parameters) - the registry obligation only checks that their keys do not collide with modelled ones; "
+           "Clone*Pdf (the importers store clones) is assumed to copy. The names behind the constructors are tied by tables regenerated from "
+           "the sources with go/ast on every run (registry assignments, ExportConfig Name literals, ImportConfig callees; RegistryCorr.v). "
            "Receivers (round 5, RecvModel.v): every decoder is a function (old receiver state, document/file) -> new state; its result "
            "equals the fresh-receiver reader for EVERY old state for dense/sparse vectors and matrices (JSON and tables), so all theorems "
            "above hold for recycled receivers; for Real scalars only when the document carries a gradient or Hessian "
@@ -97,7 +109,7 @@ def corr(ctx, binary, n):
             for i in r["mism"]:
                 bad.append(cases[k * meta["per_shard"] + i])
     orc = vlib.load_jsonl(os.path.join(ctx.dir, "oracle.jsonl"))
-    ctx.log("correspondence: %d cases in %d shards (JSON, tables, configurations, recycled receivers), %d mismatching; oracle reported %d failures" % (
+    ctx.log("correspondence: %d cases in %d shards (JSON, tables, configurations, recycled receivers, vector/matrix registries), %d mismatching; oracle reported %d failures" % (
         ncases, nshards, len(bad), len(orc)))
     return bad, orc
 
@@ -128,13 +140,16 @@ def run(ctx):
         "math.Log/Exp and LogAdd behind categorical/binomial/mixture parameters (abstract in the model; compared by count in Coq, by tolerance in the oracle)",
         "read-only reflection on the private fields of the containers to observe headers and stored entries",
         "the struct declarations of the containers are read from the library's sources with go/ast (and cross-checked with reflection on the compiled types); a field the model does not list fails the RvFields obligation",
-        "axioms: see 'print_assumptions' (expected: closed under the global context)"]
+        "int(x) on float64 (amd64 CVTTSD2SQ, out of range -> MinInt64) in c_f2z for the iid dimensions; Clone*Pdf of the components copies them",
+        "the registry tables are read from statistics/{scalar,vector,matrix}Distribution/*.go with go/ast (first-argument string literals of NewConfigDistribution, config.Name assignments, X[key] = new(T) in init) and from the registries of the running program by reflection",
+        "axioms: see 'print_assumptions' (expected: closed under the global context, except the non-vacuity Example config_vector_hypotheses_satisfiable, which instantiates the hypotheses over Coq's axiomatic real numbers)"]
     ctx.cov["partial"] = PARTIAL
     ok, failures = vlib.proof_stage(ctx, TARGETS, PROPS)
     thms = vlib.theorem_names(os.path.join(vlib.COQ, "C18/Props.v"))
     rthms = vlib.theorem_names(os.path.join(vlib.COQ, "C18/PropsRecv.v"))
+    vthms = vlib.theorem_names(os.path.join(vlib.COQ, "C18/PropsV.v"))
     if ok:
-        ctx.cov["print_assumptions"] = vlib.print_assumptions("C18", [("C18.Props", thms), ("C18.PropsRecv", rthms)], ctx.dir)
+        ctx.cov["print_assumptions"] = vlib.print_assumptions("C18", [("C18.Props", thms), ("C18.PropsRecv", rthms), ("C18.PropsV", vthms)], ctx.dir)
     binary, blog = vlib.build_harness("c18")
     if binary is None:
         ctx.violation({"obligation": "build of harness/c18 against the library", "log": blog[-3000:]}, False,
